@@ -362,7 +362,6 @@ REGIONS = {
     # skip_initializers=True turns every large initializer of every (sub)graph into one parameter of make_model, keyed by name: the same
     # name in two disjoint scopes (legal ONNX) makes the exporter give up with RuntimeError('... already present in skipped_initializers')
     "skip_initializers_same_name_in_two_scopes": lambda c: bool(c["opts"].get("skip_initializers")) and _dup_init_names(c),
-    "function_attribute_default_not_exported": lambda c: any(len(f.attribute_proto) for f in _m(c).functions),
     "loop_nested_in_if_branch": lambda c: any(n.op_type == "If" and any(x.op_type == "Loop" for a in n.attribute if a.type == onnx.AttributeProto.GRAPH for x in _nodes(a.g))
                                               for n in _nodes(_m(c).graph)),
     "loop_with_condition_break_first": lambda c: any(n.op_type == "Loop" for n in _nodes(_m(c).graph)),
